@@ -30,6 +30,10 @@ def enc(x):
         return {'nan': 1}
     if isinstance(x, type) and x.__module__ == 'numpy':
         return {'nptype': x.__name__}
+    if isinstance(x, range):
+        return {'range': [x.start, x.stop, x.step]}
+    if isinstance(x, frozenset):
+        return {'fset': sorted(x)}
     return x
 
 
@@ -45,6 +49,13 @@ def dec(j):
             return float('nan')
         if 'nptype' in j:
             return getattr(np, j['nptype'])
+        if 'range' in j:
+            return range(*j['range'])
+        if 'fset' in j:
+            return frozenset(j['fset'])
+        if 'sfcls' in j:
+            import static_frame
+            return getattr(static_frame, j['sfcls'])
         raise ValueError(j)
     return j
 
